@@ -7,7 +7,7 @@ From Coq Require Import String.
 From Coq Require Import ZArith List QArith Qcanon.
 From Batchie Require Import Lib.Sexp Lib.Num Generated.Consts Model.Gibbs Model.GibbsSpec Model.Mvn
   Proofs.C08Sums Proofs.C08Gauss Proofs.C08Cache Proofs.C08Misc Proofs.C08Mgp Proofs.C08Mvn Proofs.C08Final
-  Proofs.C08HorseshoeAlg Proofs.C08Horseshoe.
+  Proofs.C08HorseshoeAlg Proofs.C08Horseshoe Generated.SrcGibbs Proofs.C08Source.
 Import ListNotations.
 Open Scope Qc_scope.
 
@@ -552,3 +552,146 @@ Example C08_example_horseshoe_step :
   | _ => false
   end = true.
 Proof. vm_compute. reflexivity. Qed.
+
+(* ------------------------------------------------------------------ source-translation links
+   Generated/SrcGibbs.v holds the methods of LegacySparseDrugComboImpl re-translated from /repo on every run
+   (harness/py2gal.py, configurations C08_* of harness/src_functions.py) as programs in the free monad [gprog] over the
+   model's draws: every np.random.normal / np.random.gamma call is a node carrying the call's arguments and the method
+   goes on with the drawn value.  [to_prog] reads such a program as a model program; [prog_eq] is equality of programs up
+   to the extensionality of their continuations (same draw arguments at every node, equal continuations for every drawn
+   value; no axiom).  The hypotheses are shape facts that hold in every reachable state (the parameter arrays keep the
+   sizes __init__ gives them; Mu has one entry per observation after _reconstruct_Mu, with which every sweep starts). *)
+
+(* programs equal in this sense answer every stream of drawn values alike *)
+Theorem C08_model_is_source_observable : forall p q, prog_eq p q -> forall vals, run_prog p vals = run_prog q vals.
+Proof. exact prog_eq_run. Qed.
+Print Assumptions C08_model_is_source_observable.
+
+(* mcmc_step: whatever the block methods do ([run]), the translated method calls each of them once, in the model's order,
+   threading the state ... *)
+Theorem C08_model_is_source_mcmc_step_order : forall (run : blk -> st -> gprog st) n s,
+  prog_eq (to_prog (src_mcmc_step run n s)) (run_blocks_with (fun b s' => to_prog (run b s')) step_order s).
+Proof. exact src_mcmc_step_order. Qed.
+Print Assumptions C08_model_is_source_mcmc_step_order.
+
+(* ... hence with block methods that behave as the model's step functions it is the model's sweep *)
+Theorem C08_model_is_source_mcmc_step : forall g d orc (run : blk -> st -> gprog st) n s,
+  (forall b s', prog_eq (to_prog (run b s')) (step_prog g d orc b s')) ->
+  prog_eq (to_prog (src_mcmc_step run n s)) (mcmc_step g d orc s).
+Proof. exact src_mcmc_step_is_model. Qed.
+Print Assumptions C08_model_is_source_mcmc_step.
+
+Theorem C08_model_is_source_n_obs : forall d, src_n_obs d = GRet (Z.of_nat (nobs d)).
+Proof. exact src_n_obs_is_model. Qed.
+Print Assumptions C08_model_is_source_n_obs.
+
+(* get(attr, ix) on an array of numbers / of rows is the model's get_v / get_r at every index *)
+Theorem C08_model_is_source_get : forall (v : list Qc) (M : list (list Qc)) ix,
+  src_get Qc 0 v ix = GRet (map (get_v v) ix) /\ src_get (list Qc) [] M ix = GRet (map (get_r M) ix).
+Proof. exact (fun v M ix => conj (src_get_numbers v ix) (src_get_rows M ix)). Qed.
+Print Assumptions C08_model_is_source_get.
+
+(* _alpha_step with the default option fake_intercept = True (the other branch is translated too, not modelled) *)
+Theorem C08_model_is_source_alpha_step : forall g d s, src_alpha_step g d true s = GRet (alpha_step d s).
+Proof. exact src_alpha_step_is_model. Qed.
+Print Assumptions C08_model_is_source_alpha_step.
+
+Theorem C08_model_is_source_prec_obs_step : forall g d orc s, length (Mu s) = nobs d ->
+  prog_eq (to_prog (src_prec_obs_step g d orc s)) (step_prog g d orc BPrecObs s).
+Proof. exact src_prec_obs_step_is_model. Qed.
+Print Assumptions C08_model_is_source_prec_obs_step.
+
+Theorem C08_model_is_source_prec_W0_step : forall g d orc s,
+  prog_eq (to_prog (src_prec_W0_step g d orc s)) (step_prog g d orc BPrecW0 s).
+Proof. exact src_prec_W0_step_is_model. Qed.
+Print Assumptions C08_model_is_source_prec_W0_step.
+
+(* the scalar Gaussian blocks: the loop over samples / treatments, the index lists, the residual, the prior-only branch,
+   the draw's mean and variance, the stored value and the incremental cache update *)
+Theorem C08_model_is_source_W0_step : forall g d orc s, length (W0 s) = c_ncl g ->
+  prog_eq (to_prog (src_W0_step g d s)) (step_prog g d orc BW0 s).
+Proof. exact src_W0_step_is_model. Qed.
+Print Assumptions C08_model_is_source_W0_step.
+
+Theorem C08_model_is_source_V0_step : forall g d orc s, length (V0 s) = c_ndd g ->
+  prog_eq (to_prog (src_V0_step g d s)) (step_prog g d orc BV0 s).
+Proof. exact src_V0_step_is_model. Qed.
+Print Assumptions C08_model_is_source_V0_step.
+
+(* the horseshoe precision steps with the default option local_shrinkage = True (the vectorised gamma draws of the
+   auxiliaries and precisions, the counts N1 + N2, both clippings); the drawn arrays are read at the shape of the scale
+   argument, as numpy returns them *)
+Theorem C08_model_is_source_prec_V0_step : forall g d orc s, length (phi0 s) = c_ndd g -> length (V0 s) = c_ndd g ->
+  prog_eq (to_prog (src_prec_V0_step g d orc true s)) (step_prog g d orc BPrecV0 s).
+Proof. exact src_prec_V0_step_is_model. Qed.
+Print Assumptions C08_model_is_source_prec_V0_step.
+
+Theorem C08_model_is_source_prec_V2_step : forall g d orc s,
+  shape2 (V2 s) (c_ndd g) (c_D g) -> shape2 (phi2 s) (c_ndd g) (c_D g) -> length (eta2 s) = c_D g ->
+  prog_eq (to_prog (src_prec_V2_step g d orc true s)) (step_prog g d orc BPrecV2 s).
+Proof. exact src_prec_V2_step_is_model. Qed.
+Print Assumptions C08_model_is_source_prec_V2_step.
+
+Theorem C08_model_is_source_prec_V1_step : forall g d orc s,
+  shape2 (V1 s) (c_ndd g) (c_D g) -> shape2 (phi1 s) (c_ndd g) (c_D g) -> length (eta1 s) = c_D g ->
+  prog_eq (to_prog (src_prec_V1_step g d orc true s)) (step_prog g d orc BPrecV1 s).
+Proof. exact src_prec_V1_step_is_model. Qed.
+Print Assumptions C08_model_is_source_prec_V1_step.
+
+(* the multiplicative gamma process with the default option mult_gamma_proc = True: component 0, the loop over the
+   components 1 .. D-1 (slices of cumprod(gam) and of W**2, shape 2 resp. 3 + n_clines (D - d) / 2), tau = cumprod(gam),
+   clipping.  D = 0 makes the code fail at gam[0]. *)
+Theorem C08_model_is_source_prec_W_step : forall g d orc s,
+  shape2 (W s) (c_ncl g) (c_D g) -> length (gam s) = c_D g -> (0 < c_D g)%nat ->
+  prog_eq (to_prog (src_prec_W_step g d orc true s)) (step_prog g d orc BPrecW s).
+Proof. exact src_prec_W_step_is_model. Qed.
+Print Assumptions C08_model_is_source_prec_W_step.
+
+(* the vector Gaussian block of the samples: the loop, the prior-only branch N(0, diag 1/tau), the design matrix from the four
+   get calls, old contribution, residual, Xt @ resid * prec, Xt @ X * prec with tau on the diagonal, the try/except around
+   sample_mvn_from_precision (a raising call = the answer VFail: state unchanged), store, incremental cache update *)
+Theorem C08_model_is_source_W_step : forall g d orc s,
+  length (W s) = c_ncl g -> shape2 (V2 s) (c_ndd g) (c_D g) -> shape2 (V1 s) (c_ndd g) (c_D g) ->
+  prog_eq (to_prog (src_W_step g d s)) (step_prog g d orc BW s).
+Proof. exact src_W_step_is_model. Qed.
+Print Assumptions C08_model_is_source_W_step.
+
+(* the vector Gaussian blocks of the treatments: the two slices (m first / m second), their design rows W[cline] * get(V2, other)
+   resp. W[cline], concatenation, prior phi[m] * eta, try/except, store, cache update with the concatenated index.  The rows
+   of V2 / V1 redrawn earlier in the loop may have any length (all drawn values are quantified over). *)
+Theorem C08_model_is_source_V2_step : forall g d orc s,
+  length (V2 s) = c_ndd g -> shape2 (W s) (c_ncl g) (c_D g) -> shape2 (phi2 s) (c_ndd g) (c_D g) -> length (eta2 s) = c_D g ->
+  prog_eq (to_prog (src_V2_step g d s)) (step_prog g d orc BV2 s).
+Proof. exact src_V2_step_is_model. Qed.
+Print Assumptions C08_model_is_source_V2_step.
+
+Theorem C08_model_is_source_V1_step : forall g d orc s,
+  length (V1 s) = c_ndd g -> shape2 (W s) (c_ncl g) (c_D g) -> shape2 (phi1 s) (c_ndd g) (c_D g) -> length (eta1 s) = c_D g ->
+  prog_eq (to_prog (src_V1_step g d s)) (step_prog g d orc BV1 s).
+Proof. exact src_V1_step_is_model. Qed.
+Print Assumptions C08_model_is_source_V1_step.
+
+(* _reconstruct_Mu(clip): the early return without data, the three gathers per term, row sums, the optional clip *)
+Theorem C08_model_is_source_reconstruct_Mu : forall g d clip s,
+  length (d_cl d) = nobs d -> length (d_dd1 d) = nobs d -> length (d_dd2 d) = nobs d ->
+  shape2 (W s) (c_ncl g) (c_D g) -> shape2 (V2 s) (c_ndd g) (c_D g) -> shape2 (V1 s) (c_ndd g) (c_D g) ->
+  src_reconstruct_Mu g d clip s = GRet (reconstruct_Mu g d clip s).
+Proof. exact src_reconstruct_Mu_is_model. Qed.
+Print Assumptions C08_model_is_source_reconstruct_Mu.
+
+(* the observation store: the block links read the index dicts as `positions k keys` (primitive of their configurations);
+   _update - the only method that writes them - keeps exactly that representation, starting from the empty store, and
+   encode_obs returns the four lists *)
+Theorem C08_model_is_source_update : forall o d y cl dd1 dd2,
+  obs_rep o d -> length (d_cl d) = nobs d -> length (d_dd1 d) = nobs d -> length (d_dd2 d) = nobs d ->
+  exists o', src_update o y cl dd1 dd2 = Ok o' /\ obs_rep o' (data_snoc d y cl dd1 dd2).
+Proof. exact src_update_is_model. Qed.
+Print Assumptions C08_model_is_source_update.
+
+Theorem C08_model_is_source_update_empty : obs_rep obs_empty data_empty.
+Proof. exact obs_rep_empty. Qed.
+Print Assumptions C08_model_is_source_update_empty.
+
+Theorem C08_model_is_source_encode_obs : forall o d, obs_rep o d -> src_encode_obs o = Ok (d_y d, d_cl d, d_dd1 d, d_dd2 d).
+Proof. exact src_encode_obs_is_model. Qed.
+Print Assumptions C08_model_is_source_encode_obs.
